@@ -12,7 +12,11 @@ CONSTANT MaxLen,   \* subjects have at most MaxLen characters
 CharsU == { <<c_a>>, <<c_b>>, EACUTE, <<xFF>> }
 RECURSIVE UStrN(_)
 UStrN(m) == IF m = 0 THEN {<<>>} ELSE {ch \o w : ch \in CharsU, w \in UStrN(m - 1)}
-Subjects == UNION {UStrN(m) : m \in 0..MaxLen}
+\* a few subjects with a genuine U+FFFD character (three bytes that a decoder reports with the same
+\* rune as an invalid byte): positions must not be cut inside it either
+U_FFFD == <<239, 191, 189>>
+ExtraSubjects == { <<c_a>> \o U_FFFD \o <<c_b>>, U_FFFD, U_FFFD \o <<c_a>>, <<c_b>> \o U_FFFD \o U_FFFD, <<xFF>> \o U_FFFD \o EACUTE }
+Subjects == UNION {UStrN(m) : m \in 0..MaxLen} \cup {w \in ExtraSubjects : NumChars(w) <= MaxLen}
 
 AB == Cls({c_a, c_b})
 RegexesSmall ==
@@ -36,7 +40,8 @@ Regexes == RegexesSmall \cup
     Cat(DotU, Opt(Lit(c_b))) }                       \* .(b)?
   ELSE {})
 
-ReplsSmall == { <<AMP>>, <<>>, <<c_x>>, <<BSL, AMP>>, <<c_x, AMP, AMP>> }
+\* "$1" and "$$x" are ordinary text in an AWK replacement (they are template references in some regex libraries)
+ReplsSmall == { <<AMP>>, <<>>, <<c_x>>, <<BSL, AMP>>, <<c_x, AMP, AMP>>, <<DOLLAR, D1>>, <<DOLLAR, DOLLAR, c_x>> }
 Repls == ReplsSmall \cup
   (IF Rich THEN { <<c_a>>, <<AMP, c_x, AMP>>, <<BSL, AMP, AMP>>, <<AMP, BSL, AMP>>, <<c_b, BSL, AMP, c_b>>,
                  \* the property is silent about these (exported, not judged):
